@@ -20,7 +20,7 @@ REQUIRED = {"laminar": {"quick": 200, "thorough": 1500}, "zero_injection": {"qui
 ASSUMPTIONS = ["injection wavenumber strictly below Nyquist", "float64"]
 TIMEOUT = {"quick": 2400, "thorough": 7200}
 EPS = np.finfo(float).eps
-LS = [2 * np.pi, 1.0, 3.0, 0.37, 11.0]
+LS = [2 * np.pi, 1.0, 3.0, 0.37, 11.0, 2.2, 6.4]
 
 
 def cases(tier, seed):
@@ -50,7 +50,7 @@ def run_laminar(case, bus, ex):
     import jax, jax.numpy as jnp
     rng = env.rng_for(*case["rs"])
     cls, D, N, L, order = case["cls"], case["D"], case["N"], case["L"], case["order"]
-    k = int(rng.integers(1, (N - 1) // 2 + 1))
+    k = 1 + (order + N + case["rs"][-1]) % ((N - 1) // 2)          # every admissible injection mode is reached deterministically over (order, N, repetition)
     gamma = float(rng.uniform(0.3, 2.0) * rng.choice([-1, 1]))
     nu = float(10 ** rng.uniform(-3, -1)) * (L / (2 * np.pi)) ** 2
     lam = -float(rng.choice([0.0, rng.uniform(0.01, 0.5)]))
